@@ -168,7 +168,8 @@ def infoObs (cs : List (Key × Nat)) (packs : List IndexPack) : String :=
   s!"ok {joinC r.1} C={joinC after}"
 
 /-- `hist`: the model side of a real history only predicts which snapshots survive (the oracles run in the harness).
-steps: `b<k>` backup of source version k, `f<i>` forget the i-th live snapshot (mod count), `p…` prune,
+steps: `b<k>` backup of source version k, `f<i>` forget the i-th live snapshot (mod count; never the last one), `F<i>` the same
+but also the last one, `p…` prune,
 `s` a second handle reads the repository, `a<k>` that handle finishes a backup (ill-formed without a preceding `s`),
 `h<k>` a backup uploads its packs (index + snapshot held back; ill-formed while another one is open), `e` it finishes
 (ill-formed without `h`); `q…`/`Q…` prune with a fault sweep on copies of the store, `z<spec>/<i>` prune interrupted while it
@@ -201,6 +202,8 @@ def histObs (steps : List String) : String :=
     | 'x' :: _ => some { st with live := st.live + 1 }
     | 'c' :: _ => some { st with live := st.live + 2 }
     | 'f' :: _ => if st.live > 1 then some { st with live := st.live - 1, forgotten := st.forgotten + 1 } else some st
+    | 'F' :: i => if (natArg i).isNone then none else
+        if st.live > 0 then some { st with live := st.live - 1, forgotten := st.forgotten + 1 } else some st
     | 'u' :: _ => if st.forgotten > 0 then some { st with live := st.live + 1, forgotten := st.forgotten - 1 } else some st
     | ['s'] => some { st with stale := true }
     | 'a' :: _ => if st.stale then some { st with live := st.live + 1, stale := false } else none
